@@ -406,8 +406,38 @@ class AM(object):
 NS = {"AM": AM, "M": M, "E": E, "trap": trap}
 
 
-def compile_prog(src, filename="<prog>"):
-    ns = dict(NS)
+class MC(M):
+    """like M, but the function that implements __exit__ goes by another name (`__exit__ = close`)"""
+
+    def close(s, *exc):
+        return M.__exit__(s, *exc)
+    __exit__ = close
+
+
+class AMS(AM):
+    """like AM, but __aexit__ is a plain function handing back the coroutine of another method"""
+
+    def __aexit__(s, *exc):
+        return s._shutdown(*exc)
+
+    async def _shutdown(s, *exc):
+        return await AM.__aexit__(s, *exc)
+
+
+def _m_mixed(rt, i):
+    return (M if i % 2 else MC)(rt, i)
+
+
+def _am_mixed(rt, i):
+    return (AM if i % 2 else AMS)(rt, i)
+
+
+# managers alternate between the plain classes and the ones whose exit functions have unusual names
+NS_MIXED = {"AM": _am_mixed, "M": _m_mixed, "E": E, "trap": trap}
+
+
+def compile_prog(src, filename="<prog>", ns=None):
+    ns = dict(NS if ns is None else ns)
     exec(compile(src, filename, "exec"), ns)
     return ns["prog"]
 
